@@ -111,8 +111,31 @@ func genObject() *rapid.Generator[metav1.Object] {
 	})
 }
 
+// wideKeys: 24 further keys, used by one list in six so that a single sync or
+// refilter produces batches of a dozen and more events (with repeated keys).
+var wideKeys = func() []cacheKeyDef {
+	var ks []cacheKeyDef
+	for i := 0; i < 24; i++ {
+		ks = append(ks, cacheKeyDef{"w", fmt.Sprintf("k%02d", i)})
+	}
+	return ks
+}()
+
 func genObjList() *rapid.Generator[[]metav1.Object] {
 	return rapid.Custom(func(t *rapid.T) []metav1.Object {
+		if rapid.IntRange(0, 5).Draw(t, "wide") == 0 {
+			n := rapid.IntRange(13, 40).Draw(t, "nwide")
+			out := make([]metav1.Object, 0, n)
+			for i := 0; i < n; i++ {
+				k := rapid.SampledFrom(wideKeys).Draw(t, "wkey")
+				var labels map[string]string
+				if x := rapid.SampledFrom([]string{"", "1", "2"}).Draw(t, "x"); x != "" {
+					labels = map[string]string{"x": x}
+				}
+				out = append(out, mkPod(k.ns, k.name, strconv.Itoa(rapid.IntRange(1, 9).Draw(t, "wv")), labels))
+			}
+			return out
+		}
 		dupes := rapid.IntRange(0, 3).Draw(t, "dupes") == 0
 		n := rapid.IntRange(0, 10).Draw(t, "n")
 		var out []metav1.Object
